@@ -290,6 +290,8 @@ func (self Node) KeyType() thrift.Type {
 }
 
 func searchFieldId(p *thrift.BinaryProtocol, id thrift.FieldID) (tt thrift.Type, start int, err error) {
+	// if the field is not found, start tells where the struct begins (a new field can be inserted there)
+	start = p.Read
 	// if _, err := p.ReadStructBegin(); err != nil {
 	// 	return 0, start, errNode(meta.ErrReadInput, "", err)
 	// }
